@@ -458,6 +458,10 @@ def run(ctx, out):
             rec['cls'] = 'classify-' + rec['cls']
         else:
             rec = G.gen_curve_record(rng, G.DS_CLASSES[k % len(G.DS_CLASSES)])
+            if k % 6 == 5:
+                # a grid coarse enough that some rises / recessions lie wholly between two levels (they give no
+                # row; the remaining ones must still be filed under their own interval)
+                rec['grid'] = rng.choice([10.0, 20.0, 7.5, 15.0])
         tamper = TAMPERS[(k // 4) % len(TAMPERS)][0] if k % 4 == 3 else None
         cases.append((rec, tamper))
     check_cl(cases, out, 'cl')
@@ -465,7 +469,7 @@ def run(ctx, out):
     check_grid(gcases, out, 'fl_grid')
     out.rule = ('CL: synthetic records with 1-5 storms each followed by a decaying recession returning to about '
                 'the same level (classes decay / storms with unexplained rises / sparse / record bounds on a grid '
-                'level or one ulp beside it / split levels), grid steps {1, .5, 2.5, .1, .3, 5, 2}, through load, '
+                'level or one ulp beside it / split levels), grid steps {1, .5, 2.5, .1, .3, 5, 2} (one case in six: 7.5, 10, 15, 20 mm, coarser than some rises), through load, '
                 'classify, set-zeta-grid, rise, recession; one case in four has its classification tables '
                 'tampered with by SQL (12 kinds). FL: populate_zeta_grid on 1-5 levels with bounds on / beside a '
                 'grid level. Non-trivial: an untampered dataset whose rise curve and recession curve each have a '
